@@ -280,6 +280,10 @@ var c03Adversarial = []string{
 	"query ($: Int) { title }",
 	"{ keepers { friend { friend { friend { friend { friend { friend { friend { friend { name } } } } } } } } } }",
 	"{ ...F } fragment F on Query { title ... { ...F } }",
+	"{ join(words: [\"a\", null]) }",
+	"{ join(words: [[\"a\"], 1, {x: 2}]) j2: join(words: \"a\") j3: join }",
+	"query($x: [String]) { join(words: $x) }",
+	"query($x: [String!]!) { join(words: $x) }",
 	"{ ghost g2: ghost }",
 	"{ keepers { ghost } k2: keepers { ghost g3: ghost } }",
 	"{ animals { name legs } }",
@@ -331,6 +335,21 @@ var c03AdversarialSDL = []string{
 	"directive @d(l: [Int]) on OBJECT | FIELD_DEFINITION\ntype T @d(l: [1, 2]) { f: Int @d(l: []) }",
 	"directive @d(in: In) on ENUM_VALUE | ENUM\ninput In { a: [In] }\nenum E @d(in: {a: [{a: []}]}) { A @d(in: {}) }",
 	"directive @d(m: [[String]] = [[\"a\"], []]) on SCALAR\nscalar S @d(m: [[\"b\"]])",
+}
+
+// c03Pairs are (schema, request) pairs served by the schema-driven resolver.
+var c03Pairs = [][2]string{
+	{"type Query { f(in: In): Int }\ninput In { name: String not: In = {name: \"nobody\"} }", "{ f(in: {name: \"x\"}) }"},
+	{"type Query { f(in: In): Int }\ninput In { name: String not: In = {name: \"nobody\"} }", "query($v: In) { f(in: $v) }"},
+	{"type Query { f(in: In = {all: [{all: []}]}): Int }\ninput In { all: [In] = [{}] }", "{ f a: f(in: {}) b: f(in: {all: [{}, {all: null}]}) }"},
+	{"type Query { f(in: A): Int }\ninput A { b: B = {} }\ninput B { a: A = {} }", "{ f(in: {}) g: f(in: {b: {a: {}}}) }"},
+	{"type Query { f(e: E = B, l: [E] = [A, B]): E }\nenum E { A B }", "{ f a: f(e: C) b: f(l: [A, C]) c: f(e: \"A\") }"},
+	{"type Query { f(x: Int = 3 @d): Int @d }\ndirective @d(a: [Int] = [1]) on FIELD_DEFINITION | ARGUMENT_DEFINITION", "{ f f2: f(x: null) }"},
+	{"type Query { u: U i: I }\nunion U = A | B\ninterface I { x: Int }\ntype A implements I { x: Int }\ntype B implements I { x: Int y: U }", "{ u { ... on A { x } ... on B { y { ... on B { y { __typename } } } } } i { x ... on B { y { __typename } } } }"},
+	{"type Query { f(t: Time, i: Int64, fl: Float64): Time }", "{ f(t: \"not a time\") a: f(i: 99999999999999999999) b: f(fl: 1e999) c: f(t: 5) }"},
+	{"type Query { l: [[[Int!]!]!]! }", "{ l }"},
+	{"schema { query: Q mutation: M subscription: S }\ntype Q { a: Int }\ntype M { b(x: Int!): Int }\ntype S { c: Int }", "mutation { b } "},
+	{"schema { query: Q mutation: M subscription: S }\ntype Q { a: Int }\ntype M { b(x: Int!): Int }\ntype S { c: Int }", "subscription { c } "},
 }
 
 // warpLiterals replaces one literal argument value of a request by a value of
@@ -650,6 +669,50 @@ func (c C03) Run(t *tape.Tape, opt core.RunOpt) (res core.Result) {
 				}
 			})
 			res.SubSigs = append(res.SubSigs, core.Hash64("advsdl", d))
+		}
+		// schema + request pairs: the crash needs both
+		for i := 0; i < 3; i++ {
+			pr := c03Pairs[t.Draw(len(c03Pairs))]
+			vars := randomVars(t, []string{"v", "f", "x"})
+			ctx.guard("ParseString+ResolveString(pair)", "vars "+workload.Canon(vars), pr[0]+"\n---\n"+pr[1], func() {
+				r := workload.NewSynthRoot()
+				if err := r.ParseString(pr[0]); err == nil {
+					_ = r.ResolveString(pr[1], "", vars)
+					_ = r.SDL(true, true)
+				}
+			})
+			res.SubSigs = append(res.SubSigs, core.Hash64("pair", pr[0], pr[1]))
+		}
+		// load histories: whatever a refused load leaves behind must not crash the
+		// calls that follow (printing, introspection, the next load)
+		{
+			hr := workload.NewSynthRoot()
+			hg := &workload.Gen{T: t}
+			var hist []string
+			for step := 0; step < 2+t.Draw(3); step++ {
+				hg.St = workload.ReadSymTab(hr, hg.N)
+				hg.ResetDoc()
+				var doc strings.Builder
+				for k := 0; k < 1+t.Draw(3); k++ {
+					doc.WriteString(hg.Valid().Text)
+				}
+				if step > 0 && t.Bool(1, 2) {
+					doc.WriteString(hg.Poison().Text)
+					if t.Bool(1, 2) {
+						doc.WriteString(hg.Valid().Text)
+					}
+				}
+				hist = append(hist, doc.String())
+				ctx.guard("load history: ParseString, SDL, introspection", "", strings.Join(hist, "\n=== next load ===\n"), func() {
+					_ = hr.ParseString(doc.String())
+					_ = hr.SDL(true, true)
+					_ = hr.ResolveString(workload.IntrospectionQuery, "", nil)
+					for _, ty := range hr.Types() {
+						_ = ty.SDL(true)
+					}
+				})
+			}
+			res.SubSigs = append(res.SubSigs, core.Hash64("history", strings.Join(hist, "\x00")))
 		}
 		// entry points on a root that has nothing loaded / only AddTypes
 		ctx.guard("ResolveString(empty root)", "", "{ a }", func() { _ = ggql.NewRoot(nil).ResolveString("{ a }", "", nil) })
